@@ -255,7 +255,7 @@ pub fn run_c13(ctx: &Ctx) {
             }
             let mut inj = ip::lib(InjectorPP::new);
             ip::lib(|| inj.when_called(fp(t.addr, SIG_V)).will_execute_raw(fp(vprobe_fake as usize, SIG_V)));
-            let reader = x86::live_reader();
+            let reader = live_reader();
             let w = x86::follow(t.addr, vprobe_fake as usize, &reader);
             let form = format!("{}", w.words.iter().map(|b| b.len().to_string()).collect::<Vec<_>>().join("+"));
             *forms.entry(format!("{}:{}", kind, form)).or_insert(0) += 1;
